@@ -218,6 +218,10 @@ class BEval(object):
             return None
 
     def op_call(self, fv, args, kw=None):
+        if isinstance(fv, App) and fv.op == 'ite':
+            # f = g if c else h ; f(..)
+            return self.op_call(fv.args[1] if self.ev(fv.args[0])
+                                else fv.args[2], args, kw)
         if isinstance(fv, FRef) and fv.fi.name in self.rec_fns:
             return ('REC', fv.fi.name) + tuple(self._recarg(x)
                                                for x in args.items)
@@ -330,10 +334,20 @@ def rule_bdd1(prog, tier):
                prog.cls('BDD.BDD.BDDNonTerminalNode'),
                prog.cls('BDD.BDD.BDDTerminalNode'))
     base, nt, tt = classes
-    order = ['x', 'y'] if tier == 'quick' else ['x', 'y', 'z']
-    dds = all_robdds(order)
-    if tier != 'quick':
-        dds = dds[::5] + all_robdds(['x', 'y'])
+    order = ['x', 'y', 'z']
+    if tier == 'quick':
+        # every reduced diagram over two of the three variables: adjacent
+        # and non-adjacent positions of the ordering both occur
+        dds = []
+        for pair in (['x', 'y'], ['y', 'z'], ['x', 'z']):
+            for d in all_robdds(pair):
+                if d not in dds:
+                    dds.append(d)
+    else:
+        dds = all_robdds(order)
+        dds = dds[::5] + [d for pair in (['x', 'y'], ['y', 'z'], ['x', 'z'])
+                          for d in all_robdds(pair)]
+        dds = [d for i, d in enumerate(dds) if d not in dds[:i]]
     oapply, wrapper, step = _discover_apply(prog)
     ops = {'and': lambda a, b: a and b, 'or': lambda a, b: a or b,
            'xor': lambda a, b: a ^ b}
